@@ -6,13 +6,15 @@ import lib_C16 as L
 from ufo import err_kind, rat
 
 ID = "C16"
-PROOF_FILES = ["C16", "C16Seq"]
+PROOF_FILES = ["C16", "C16Seq", "C16Names"]
 THEOREM = ("Ufo2ft.C16.deps_rank / C16_total / C16_fuel_irrelevant / C16_explicit_attr / C16_fallback_system / "
            "C16_fallback_unique / C16_rows / C16_explicit / C16_fallback / C16_derived / C16_names / C16_names_compile / "
            "C16_gasp / C16_font / C16_psname / C16_psname_string / C16_psname_ascii / "
            "C16_intListToNum / C16_compiles_partial / C16_compiles_false / C16_infocompiler_total / "
            "C16_infocompiler_rows / C16_infocompiler_missing_table / C16_infocompiler_seq / C16_infocompiler_seq_source / "
-           "C16_infocompiler_seq_rows / C16_infocompiler_seq_plain / C16_infocompiler_seq_total")
+           "C16_infocompiler_seq_rows / C16_infocompiler_seq_plain / C16_infocompiler_seq_total / "
+           "C16_names_merge / C16_names_merge_lookup / C16_names_merge_order / C16_names_merge_update / C16_names_update / "
+           "C16_names_override / C16_infocompiler_names / C16_infocompiler_names_merge")
 N = {"quick": 260, "thorough": 6000}
 EXHAUSTIVE = True
 RULE = ("exhaustive: normalizeNameForPostscript on every Unicode scalar value (1 112 064 code points, NFKD of each supplied "
@@ -37,7 +39,8 @@ ASSUMED = [
     "str.lower()/title() are modelled on ASCII only: no non-ASCII character lowercases to a letter of the four style-map names (checked over all of Unicode by the harness)",
     "fontTools' binary packers accept the generated magnitudes (16-bit fields); CFF PrivateDict defaults are fontTools'",
     "public.openTypePostUnderlinePosition lib key absent",
-    "variable-font histories: what fontTools.varLib does to a merged font is not modelled (fvar/STAT name records are left out of the observation; a custom axis tag is used because varLib.build overwrites usWeightClass / usWidthClass / italicAngle for wght / wdth / slnt); those requests are predicate-only (agree = True)",
+    "variable-font histories: what fontTools.varLib does to a merged font is not modelled (fvar/STAT name records are left out of the observation; a custom axis tag is used because varLib.build overwrites usWeightClass / usWidthClass / italicAngle for wght / wdth / slnt); those requests are predicate-only (agree = True); the predicates evaluated there (rows, holdsNamesOverride, PostScript name) are proved of the model's InfoCompiler applied to a plain compile of the source info, not of varLib's merged font",
+    "the order of name records is observed only in memory on the direct InfoCompiler path (fontTools sorts the table at save; varLib fonts are compared as sorted lists); record lists with duplicate keys never reach InfoCompiler from a compile, so that part of C16_names_merge is not exercised by the correspondence",
 ]
 
 SPECIALS = None
@@ -255,6 +258,9 @@ def _run_infocompiler(case):
         if over:      # PostProcessor: `if self.info: self.apply_fontinfo()` — an empty public.fontInfo is not applied
             InfoCompiler(tt, font, dict(over)).compile()
         obs = L.observe(tt, False)
+        # the in-memory record ORDER (fontTools sorts only when the table is compiled): compared with the model's list
+        # in `agree`, so that the dict-order rule of InfoCompiler.setupTable_name (C16_names_merge_order) is observed
+        obs["nameOrder"] = [[n.nameID, n.platformID, n.platEncID, n.langID] for n in tt["name"].names]
     except Exception as e:
         inp.setdefault("baseVertical", False); inp.setdefault("baseGasp", False)
         obs = {"err": err_kind(e)}
@@ -490,6 +496,8 @@ def agree(req, rep):
     if op in ("font", "infocompiler"):
         if m.get("err") is not None or o.get("err") is not None:
             return m.get("err") == o.get("err")
+        if "nameOrder" in o and [n[:4] for n in m["names"]] != o["nameOrder"]:
+            return False
         return all(o["fields"].get(k) == v for k, v in m["fields"].items()) and sorted(m["names"]) == o["names"]
     if op == "attrs":
         return _strip(m) == o
@@ -573,7 +581,9 @@ LEVEL_TEXT = ("Proved for all inputs (Lean): the fallback call graph is acyclic 
               "the sum of 2^i for every list/start/length; normalizeStringForPostscript returns only characters of [33,126] minus "
               "[](){}<>/% (plus the space when allowed) for EVERY string and an arbitrary NFKD function (full strength since the "
               "repair f81aa08), so every generated PostScript name is clean; InfoCompiler never raises for well-formed overrides on a "
-              "compiled font, shows the merged info in every row of the tables it handles and leaves a table the temporary "
+              "compiled font, shows the merged info in every row of the tables it handles, merges the name records for ALL record "
+              "lists as Python's dicts do (temporary record wins under its key, others kept, keys unique, dict order) so that the "
+              "result shows the merged info's name string where it defines a key and the base string elsewhere, and leaves a table the temporary "
               "compile does not build (vhea, gasp) exactly as it was; for ANY sequence of fonts post-processed from the same source "
               "(several <variable-font> elements, re-use of a UFO) the k-th font is what the original source info and its own "
               "override set alone give (rows theorem for fonts with overrides, plain compile for fonts without), the sequence never "
@@ -588,10 +598,22 @@ LEVEL_NOTE = ("One statement of the property is false of the code and is proved 
               "points, f81aa08; old function kept as normCharOld with its counterexamples) and the InfoCompiler KeyError for a "
               "table the temporary compile does not build (old behaviour kept as infoCompileOld with its counterexample); the "
               "exhaustive enumeration must report zero failures and a recurrence of either is a VIOLATION. NFKD, tan and strptime "
-              "are inputs; IEEE rounding is modelled and measured on every run, not proved; the name-table merge of InfoCompiler is "
-              "checked by a declarative predicate on observed fonts but has no theorem. Histories: the model threads the source info "
+              "are inputs; IEEE rounding is modelled and measured on every run, not proved. The name-table merge of InfoCompiler is now "
+              "a theorem (Props/C16Names.lean): for ALL record lists, duplicates allowed, the three dict statements of "
+              "setupTable_name (namesMerge) satisfy holdsNamesMerge (keys unique, every temporary record present with its last "
+              "value, every other original record kept, nothing else, dict order), equal infoCompile's namesUpdate whenever the "
+              "original keys are distinct (true of every compiled font), and for well-formed base info and overrides the name "
+              "table of infoCompile satisfies holdsNamesOverride, the predicate the driver evaluates on observed fonts "
+              "(C16_infocompiler_names). The ORDER of the merged records (C16_names_merge_order) is tied to the code on the direct "
+              "InfoCompiler path only: there the in-memory record order is observed (nameOrder) and compared with the model's "
+              "list (a mutant of setupTable_name that keeps the map but puts the temporary records first is reported as a "
+              "disagreement); on reloaded fonts and on the variable-font path records are compared sorted. holdsNamesMerge "
+              "itself is not evaluated on observed fonts (the two input record lists are not observed separately, and no "
+              "compiled font has duplicate keys, so the duplicate-key cases of the theorem are about the model only). Histories: the model threads the source info "
               "through the steps (the ufoLib2 branch copies, the defcon branch serialises; `infoCompileStepAliased` shows what "
               "happens without the copy); on the direct path model and observation are compared in full, on the variable-font "
               "path (compileVariableTTFs/CFF2s) only the predicates are evaluated on the observed fonts (rows of head/hhea/OS2/post, "
-              "name records other than varLib's, PostScript name; agree = True) because varLib's merge is external; the "
+              "name records other than varLib's, PostScript name; agree = True) because varLib's merge is external - those "
+              "predicates are theorems of the model (C16_infocompiler_rows, C16_infocompiler_names) but varLib.build itself "
+              "stays unmodelled; the "
               "source-unchanged predicate and the recompile of the same object are compared in full on both paths.")
